@@ -778,14 +778,21 @@ func (h *H) checkGesvd(id string, idx, m, n int, cls string) {
 	cfg := 0
 	for _, jobU := range svdJobs {
 		for _, jobVT := range svdJobs {
-			for lwi := 0; lwi < 3; lwi++ {
+			for lwi := 0; lwi < len(gesvdLwClasses); lwi++ {
 				cfg++
-				if !h.thorough() && (cfg+idx)%3 == 0 && !(jobU == lapack.SVDAll && jobVT == lapack.SVDAll && lwi == 1) {
+				lwn := gesvdLwClasses[lwi]
+				if !gesvdClassWanted(h.thorough(), lwn, m, n) {
+					continue
+				}
+				if !h.thorough() && (cfg+idx)%3 == 0 && !(jobU == lapack.SVDAll && jobVT == lapack.SVDAll && lwn == "fast-large") {
 					continue // quick: two thirds of the configurations per matrix
 				}
 				pad := (cfg + idx) % 3 * 2
-				if lwi == 2 && cfg%2 == 0 {
+				if lwn == "query" && cfg%2 == 0 {
 					pad = 0 // query with lda == n takes the ldwork = lda branches
+				}
+				if (lwn == "generous" || strings.HasPrefix(lwn, "lda")) && (cfg+idx)%2 == 0 {
+					pad = 7 // the layout threshold involves lda
 				}
 				tag := fmt.Sprintf("jobU=%c jobVT=%c", rune(jobU), rune(jobVT))
 				if k == 1 && pad > 0 {
@@ -813,23 +820,52 @@ func (h *H) checkGesvd(id string, idx, m, n int, cls string) {
 				default:
 					vtb = cs.mat("vt", 1, 1, 0)
 				}
-				lwork := minwork
-				lwn := "min"
-				switch lwi {
-				case 1:
-					// Smallest length that passes every "sufficient workspace
-					// for the fast algorithm" test of the m >> n / n >> m paths.
-					lwork = max(minwork, k*k+max(m+n, 5*k))
-					lwn = "fast-threshold"
-				case 2:
+				// Thresholds of dgesvd.go: the fast algorithm needs
+				// k*k+max(4k, 5k) (paths 4, 6) or k*k+max(m+n, 4k, 5k) (paths 7,
+				// 9) words; the k x k work matrices get leading dimension lda
+				// instead of k when lwork >= wrkbl+lda*k, wrkbl = optimum - k*k.
+				query := minwork
+				if lwn != "min" && !strings.HasPrefix(lwn, "fast") {
 					var ok bool
-					lwork, ok = cs.query("Dgesvd", minwork, k == 0, func(w []float64) {
+					cs.exactQuery = true
+					query, ok = cs.query("Dgesvd", minwork, k == 0, func(w []float64) {
 						h.impl.Dgesvd(jobU, jobVT, m, n, ab.s, ab.ld, sv, ub.s, ub.ld, vtb.s, vtb.ld, w, -1)
 					}, ab.s, sv, ub.s, vtb.s)
+					cs.exactQuery = false
 					if !ok {
 						continue
 					}
-					lwn = "query"
+				}
+				fastS, fastL := k*k+5*k, k*k+max(m+n, 5*k)
+				ldThr := query - k*k + ab.ld*k
+				lwork := minwork
+				switch lwn {
+				case "fast-small-1":
+					lwork = fastS - 1
+				case "fast-small":
+					lwork = fastS
+				case "fast-large-1":
+					lwork = fastL - 1
+				case "fast-large":
+					lwork = fastL
+				case "fast-large+1":
+					lwork = fastL + 1
+				case "query":
+					lwork = query
+				case "lda-1":
+					lwork = ldThr - 1
+				case "lda":
+					lwork = ldThr
+				case "lda+1":
+					lwork = ldThr + 1
+				case "generous":
+					lwork = query + ab.ld*max(m, n) + k*k
+				case "4xquery":
+					lwork = 4 * query
+				}
+				lwork = max(lwork, minwork)
+				if k > 0 {
+					h.c.Count("gesvd_reach|"+gesvdPathLayout(m, n, jobU, jobVT, lwork, query, ab.ld), 1)
 				}
 				work := cs.work(lwork)
 				var ok bool
@@ -958,6 +994,64 @@ func (h *H) checkGesvdOverwrite(id string, idx int) {
 			}
 		}
 	}
+}
+
+// gesvdLwClasses are the workspace lengths of a Dgesvd case: on both sides of
+// every threshold at which dgesvd.go changes algorithm or workspace layout.
+var gesvdLwClasses = []string{"min", "fast-small-1", "fast-small", "fast-large-1", "fast-large", "fast-large+1", "query", "lda-1", "lda", "lda+1", "generous", "4xquery"}
+
+// gesvdClassWanted thins the classes: quick keeps one length per layout
+// (slow, fast with ld = k, ld = lda exactly at its threshold, generous);
+// thorough runs all of them for shapes beyond mnthr and the thresholds-free
+// subset for the others.
+func gesvdClassWanted(thorough bool, lwn string, m, n int) bool {
+	basic := lwn == "min" || lwn == "fast-large" || lwn == "query" || lwn == "generous"
+	if !thorough {
+		return basic || lwn == "lda"
+	}
+	sh := svdShape(m, n)
+	if sh == "tall<mnthr" || sh == "wide<mnthr" {
+		return basic || lwn == "4xquery"
+	}
+	return true
+}
+
+// gesvdPathLayout names the path of dgesvd.go (by its source comments) and the
+// workspace layout selected by lwork, for the reach counters in the evidence.
+func gesvdPathLayout(m, n int, jobU, jobVT lapack.SVDJob, lwork, query, lda int) string {
+	k := min(m, n)
+	sh := svdShape(m, n)
+	t := ""
+	mine, other := jobU, jobVT
+	if m < n {
+		t = "t"
+		mine, other = jobVT, jobU
+	}
+	if sh == "tall<mnthr" || sh == "wide<mnthr" {
+		return "path=10" + t + "|layout=n/a"
+	}
+	var path string
+	thr := k*k + 5*k
+	switch {
+	case mine == lapack.SVDNone:
+		return "path=1" + t + "|layout=n/a"
+	case mine == lapack.SVDStore && other == lapack.SVDNone:
+		path = "4"
+	case mine == lapack.SVDStore:
+		path = "6"
+	case other == lapack.SVDNone:
+		path, thr = "7", k*k+max(m+n, 5*k)
+	default:
+		path, thr = "9", k*k+max(m+n, 5*k)
+	}
+	layout := "slow-algorithm"
+	if lwork >= thr {
+		layout = "fast-ldwork=k"
+		if lwork >= query-k*k+lda*k {
+			layout = "fast-ldwork=lda"
+		}
+	}
+	return "path=" + path + t + "|layout=" + layout
 }
 
 // svdShape names the shape class that selects the Dgesvd path family.
